@@ -21,7 +21,7 @@ enum Op {
     Run(usize),
 }
 
-const SOURCES: [&str; 22] = [
+const SOURCES: [&str; 26] = [
     "|12 34 56| var b",
     "b open-bitstr 8 bits drop 4 bits",
     "|ff| b bitstr-append ! b",
@@ -44,6 +44,12 @@ const SOURCES: [&str; 22] = [
     "3 bits 5 bits bitstr-append",
     "3 2 d2-resize 7 d2-color! 1 1 d2-data!",
     "d2-width d2-height 1 1 d2-data",
+    // a run-time built bit-string slice that only the data stack refers to (uniquely owned in a
+    // lone interpreter, shared right after a clone), consumed by mutators, base made visible
+    "[ 1 2 3 ] >bitstr open-bitstr 1 bytes drop 1 bytes close-bitstr",
+    "|FF| swap bitstr-append",
+    "bitstr-not",
+    "dup open-bitstr offset remain close-bitstr",
 ];
 const D2_PROBE: &str = "d2-width d2-height 1 1 d2-data";
 const COPIES: usize = 3;
@@ -54,12 +60,18 @@ struct World {
     results: Vec<Vec<String>>,  // result kind of each lineage op
 }
 
+thread_local! {
+    static RECORDING: std::cell::Cell<bool> = std::cell::Cell::new(true);
+}
+
 fn fresh() -> Xstate {
     let mut xs = boot();
     xeh::d2_plugin::load(&mut xs).unwrap();
     xs.set_binary_input(Xbitstr::from(vec![0xA1u8, 0xB2, 0xC3, 0xD4])).unwrap();
     let _ = xs.intercept_output(true);
-    xs.set_recording_enabled(true);
+    // with recording on, the reverse log keeps references to old values (more sharing); with it
+    // off, values on the stack can be uniquely owned: both configurations are explored
+    xs.set_recording_enabled(RECORDING.with(|r| r.get()));
     let _ = xs.set_insn_limit(Some(10_000));
     xs
 }
@@ -143,7 +155,7 @@ fn op_text(op: &Op) -> String {
 
 fn alphabet(quick: bool) -> Vec<Op> {
     let mut ops = vec![Op::Clone(0, 1), Op::Clone(1, 2), Op::Clone(0, 2)];
-    let srcs: Vec<usize> = if quick { vec![0, 2, 3, 5, 6, 7, 8, 10, 12, 13, 14, 15, 16, 18, 20] } else { (0..SOURCES.len()).collect() };
+    let srcs: Vec<usize> = if quick { vec![0, 2, 3, 5, 6, 7, 8, 10, 12, 13, 14, 15, 16, 18, 20, 22, 23, 24, 25] } else { (0..SOURCES.len()).collect() };
     for x in 0..2 {
         for s in &srcs {
             ops.push(Op::Eval(x, *s));
@@ -221,7 +233,7 @@ fn explore(ops: &[Op], hist: &mut Vec<usize>, depth: usize, rep: &Reporter, st: 
                     if let Some(d) = first_diff(&b.dump, &a.dump, &[]) {
                         let sect = d.split(':').next().unwrap_or("?").to_string();
                         rep.report_w(&format!("isolation:{}", sect), hist.len() as u64, || {
-                            jo(vec![("kind", js("clone-isolation")), ("history", hist_txt()), ("copy_that_changed", js(["A", "B", "C"][y])), ("difference", js(d.clone()))])
+                            jo(vec![("kind", js("clone-isolation")), ("recording", J::B(RECORDING.with(|r| r.get()))), ("history", hist_txt()), ("copy_that_changed", js(["A", "B", "C"][y])), ("difference", js(d.clone()))])
                         });
                         ok = false;
                     } else if b.d2 != a.d2 {
@@ -273,7 +285,7 @@ fn explore(ops: &[Op], hist: &mut Vec<usize>, depth: usize, rep: &Reporter, st: 
                 } else if let Some(d) = first_diff(&a.dump, &b.dump, &[]) {
                     let sect = d.split(':').next().unwrap_or("?").to_string();
                     rep.report_w(&format!("replay-differs:{}", sect), hist.len() as u64, || {
-                        jo(vec![("kind", js("clone-determinism")), ("history", hist_txt()), ("copy", js(["A", "B", "C"][x])), ("difference_copy_vs_fresh_replay", js(d.clone()))])
+                        jo(vec![("kind", js("clone-determinism")), ("recording", J::B(RECORDING.with(|r| r.get()))), ("history", hist_txt()), ("copy", js(["A", "B", "C"][x])), ("difference_copy_vs_fresh_replay", js(d.clone()))])
                     });
                     ok = false;
                 } else if a.d2 != b.d2 {
@@ -328,10 +340,12 @@ pub fn run(cfg: &Cfg) -> i32 {
     let applied = AtomicU64::new(0);
     let checks = AtomicU64::new(0);
     let nops = ops.len();
-    par_run(cfg.threads, prefixes.len() * nops, 1, |_t, pull| {
+    par_run(cfg.threads, prefixes.len() * nops * 2, 1, |_t, pull| {
         let mut st = Stats { nodes: 0, applied: 0, clones_alive_checks: 0 };
         while let Some(r) = pull() {
             for ti in r {
+                RECORDING.with(|r| r.set(ti % 2 == 0));
+                let ti = ti / 2;
                 let (pi, first) = (ti / nops, ti % nops);
                 let mut hist = prefixes[pi].0.clone();
                 if replay(&ops, &hist).is_none() {
